@@ -107,11 +107,11 @@ CLAIMED.update({
 CLAIMED.update({
     "C18": dict(
         text="Proof on the real extensions/dataclasses.py: per-member decision table of _dataclass_parameters for one generic iteration from an arbitrary carried state "
-             "(skip rules, KW_ONLY sentinel, init=False, kind with field-level kw_only override, default / default_factory / required), decorator init=False, "
+             "(skip rules incl. subscripted and bare ClassVar, KW_ONLY sentinel, init=False, kind with field-level kw_only override, default / default_factory / required), decorator init=False, "
              "_set_dataclass_init (label iff a parent is a dataclass, base fields in reverse MRO then own, self first, cached lists never mutated, no __init__ for "
              "undecorated or init=False classes), _apply_recursively guards (hand-written __init__ kept). _reorder_parameters (first position, last definition, stable "
              "partition) is verified symbolically for bounded lengths; agreement with CPython's dataclasses is a bounded native tier.",
-        note="Members of a dataclass body are non-alias objects; _field_arguments/_dataclass_arguments summarised by their key sets. Fixed: C18-F0/F1/F2; known: C18-F3/F4.",
+        note="Members of a dataclass body are non-alias objects; _field_arguments/_dataclass_arguments summarised by their key sets. Fixed: C18-F0/F1/F2, C18-P1 (bare ClassVar), C18-P2 (InitVar of an init=False base; decided by the native tier only: it is an ordering / caching effect across classes); known: C18-F3/F4.",
         ref="DESIGN.md 3/C18"),
 })
 
